@@ -1084,7 +1084,10 @@ def weave(src, modpath, contracts, mode, report, used, vacuity_props=None):
                                              {'suffix': None, 'labels': None, 'extra_requires': [],
                                               'external_body': True, 'marker': f.qname})
             edits.extend(e)
-            ens_labels = [x.label for x in c.clauses if x.kind == 'ensures' and x.mode in ('both', mode)]
+            # strict file: clauses proved in the lenient file (mode both) stay on the unverified original - every strict
+            # execution is also a lenient one, so partial-correctness clauses carry over; only strict clauses are re-proved
+            ens_labels = [x.label for x in c.clauses if x.kind == 'ensures'
+                          and (x.mode == 'strict' if mode == 'strict' else x.mode in ('both', mode))]
             covered = set()
             for g in groups:
                 covered |= set(g['labels'])
@@ -1092,7 +1095,10 @@ def weave(src, modpath, contracts, mode, report, used, vacuity_props=None):
             allgroups = list(groups)
             if rest:
                 allgroups.append({'name': 'rest', 'labels': rest, 'atoms': [], 'assume': [], 'mode': 'both'})
-            unknown = covered - set(ens_labels)
+            all_labels = set(x.label for x in c.clauses if x.kind == 'ensures')
+            unknown = covered - all_labels
+            allgroups = [dict(g, labels=[l for l in g['labels'] if l in ens_labels]) for g in allgroups]
+            allgroups = [g for g in allgroups if g['labels']]
             if unknown:
                 raise GenError('%s: @group names unknown clause(s) %s' % (f.qname, sorted(unknown)))
             end = toks[f.body_close].end
